@@ -614,6 +614,10 @@ func main() {
 		if thorough {
 			deadline = time.Now().Add(20 * time.Minute)
 		}
+		catlogOnly := os.Getenv("VERIF_AS") != "" && os.Getenv("VERIF_PART_MODE") == "catlog"
+		if catlogOnly {
+			phases = nil // borrowed phase "catlog": only the catalogue-log part
+		}
 		for _, p := range phases {
 			p := p
 			limits.creates, limits.deletes, limits.snapshots, limits.restarts = p.creates, p.deletes, p.snapshots, p.restarts
@@ -641,7 +645,7 @@ func main() {
 		crashCases := 0
 		for _, nodes := range []int{1, 2} {
 			for _, via := range []uint64{1, 2} {
-				if int(via) > nodes {
+				if int(via) > nodes || catlogOnly {
 					continue
 				}
 				c1 := event{Kind: "create", Node: via, P: 1, R: 1}
